@@ -109,10 +109,14 @@ structure Job where
   ctx : Option Ctx               -- `_job_context`
   cmdMax : Option (Option Nat)   -- `_delta_parameters['command']['max_samples']`: absent | None | value
   dmap : Option MapDelta         -- `_delta_parameters['mapping']` (none = empty dict)
+  res : Bool := false            -- `_results` is truthy: results were downloaded and are cached
+  dp : Bool := true              -- `_delta_parameters` still is `{'command': …, 'mapping': …}` (see `Variant.resFix`)
   deriving DecidableEq, Repr
 
 inductive Err where
   | typeError | valueError | runtimeError | assertionError | httpError | connectionError
+  | keyError             -- `self._delta_parameters['command']` on a job whose delta parameters were overwritten
+  | keyboardInterrupt    -- the user interrupts the process (Ctrl-C); not an `Exception`
   deriving DecidableEq, Repr
 
 /-- `_check_max_shots_samples_validity`: both keys present → compare (a `None` operand is a
@@ -131,9 +135,9 @@ def mergeCtx (j : Job) : Option Ctx :=
   | none => j.ctx
   | some m => some { rm := (match j.ctx with | some c => c.rm | none => none), md := some m }
 
-/-- `RemoteJob._create_payload_data()` without arguments: the job after the call (its
-`_request_data` is the prepared request).  `_request_data is None` → `TypeError`. -/
-def norm (j : Job) : Except Err Job :=
+/-- `RemoteJob._create_payload_data()` without arguments, for a job whose `_delta_parameters` are intact:
+the job after the call (its `_request_data` is the prepared request).  `_request_data is None` → `TypeError`. -/
+def normCore (j : Job) : Except Err Job :=
   match j.req with
   | none => .error .typeError
   | some r =>
@@ -143,10 +147,15 @@ def norm (j : Job) : Except Err Job :=
     | .error e => .error e
     | .ok p => .ok { j with ctx := mergeCtx j, req := some { jobName := some j.name, payload := p } }
 
+/-- `RemoteJob._create_payload_data()`: `_handle_params` reads `self._delta_parameters['command']` first —
+`KeyError` once `_get_results` replaced the dictionary (pinned code, `Variant.resFix`) -/
+def norm (j : Job) : Except Err Job := if j.dp then normCore j else .error .keyError
+
 /-- `Job._handle_params((), kwargs)` with `kwargs = {max_samples: v}`: fill a `None` placeholder
 (command first, then mapping), otherwise `RuntimeError("Unused parameters")` -/
 def fillKw (j : Job) (v : Nat) : Except Err Job :=
-  if j.cmdMax = some none then .ok { j with cmdMax := some (some v) }
+  if !j.dp then .error .keyError
+  else if j.cmdMax = some none then .ok { j with cmdMax := some (some v) }
   else match j.dmap with
     | some m => if m.maxSamples = none then .ok { j with dmap := some { m with maxSamples := some v } }
                 else .error .runtimeError
@@ -189,12 +198,15 @@ structure Variant where
   addFix : Bool
   statFix : Bool
   pollFix : Bool
+  resFix : Bool     -- `RemoteJob._get_results` leaves `_delta_parameters` alone (before: replaced by the mapping
+                    --   delta parameters of the results, after which `_create_payload_data` raises `KeyError`)
+  gstFix : Bool     -- `JobGroup.get_results` writes a status that `job.get_results()` refreshed (before: unsaved)
   deriving DecidableEq, Repr
 
 /-- the code as pinned -/
-def current : Variant := ⟨false, false, false, false, false⟩
+def current : Variant := ⟨false, false, false, false, false, false, false⟩
 /-- the repaired code (main model) -/
-def fixed : Variant := ⟨true, true, true, true, true⟩
+def fixed : Variant := ⟨true, true, true, true, true, true, true⟩
 
 /-- `RemoteJob._from_dict` (+ `JobGroup._build_remote_job`: same handler metadata).  An entry
 without body that is not SUCCESS cannot be produced by `toDict`; the model maps it to a job
@@ -235,6 +247,16 @@ inductive Ans where
   | fault (e : Err)     -- the request fails and the error leaves `job.status` (unrecoverable HTTP status,
                         --   or the `_MAX_ERROR`-th fault in a row): nothing in memory changes
   | ignored             -- the request fails with a recoverable fault: logged, the previous status is returned
+  | intr                -- Ctrl-C at the next interruptible point — the status request itself, or the `time.sleep`
+                        --   that follows it (wait loop, delay between two sequential launches, `track_progress`):
+                        --   `KeyboardInterrupt` leaves the operation through its `finally` clauses
+  deriving DecidableEq, Repr
+
+/-- what one `get_job_results` request comes to (`RemoteJob._get_results`) -/
+inductive Rsp where
+  | ok (mapped : Bool)  -- results delivered and cached; `mapped`: they carry a `job_context.result_mapping`
+  | unavailable         -- no decodable results (`TypeError`/`KeyError` inside `_get_results`) → `RuntimeError`
+  | fault (e : Err)     -- the request fails (HTTP error, connection error, Ctrl-C): the error leaves `get_results`
   deriving DecidableEq, Repr
 
 /-- ghost record of one `create_job` request -/
@@ -252,6 +274,9 @@ structure State where
   next : Nat                  -- server: every identifier issued so far is below
   outs : List Outcome         -- script of the running operation
   sts : List Ans
+  rsps : List Rsp             -- answers to `get_job_results`
+  created : Nat               -- `created_date` of the group object (= of the file when there is one), in seconds
+  clock : Nat                 -- `datetime.now()` of the running operation
   sent : List Sent            -- ghost: all `create_job` requests, oldest first
   issued : List Nat           -- ghost: identifiers the server issued to this group's launches
   retired : List Nat          -- ghost: identifiers of failed jobs replaced by their rerun
@@ -283,12 +308,20 @@ def writeR (s : State) : State × Res :=
   | .ok s' => (s', .ok)
   | .error e => (s, .raised e)
 
-/-- `JobGroup(name)`: load when the file exists, else start empty and write -/
+/-- `try: self._write_to_file() except Exception: <undo>; raise` — when `_to_json` raises, the state `s0` from
+before the attempted change is what remains -/
+def writeOr (s0 s : State) : State × Res :=
+  match write s with
+  | .ok s' => (s', .ok)
+  | .error e => (s0, .raised e)
+
+/-- `JobGroup(name)`: load when the file exists (jobs and `created_date`), else start empty — created
+now — and write -/
 def construct (v : Variant) (s : State) : State × Res :=
-  let s1 : State := { s with dir := s.dir || v.dirFix, outs := [], sts := [] }
+  let s1 : State := { s with dir := s.dir || v.dirFix, outs := [], sts := [], rsps := [] }
   match s1.disk with
   | some d => ({ s1 with mem := d.map (fromDict v) }, .ok)
-  | none => writeR { s1 with mem := [] }
+  | none => writeR { s1 with mem := [], created := s1.clock }
 
 /-- the process stops here: memory is lost, the group is re-opened from the file -/
 def kill (v : Variant) (s : State) : State × Res := ((construct v s).1, .killed)
@@ -310,10 +343,7 @@ def addOp (v : Variant) (s : State) (j : Job) (kw : Option Nat) : State × Res :
     | .error e => (s, .raised e)
     | .ok j1 =>
       let nx := match j1.id with | some k => max s.next (k + 1) | none => s.next
-      if v.addFix then
-        match prep j1 with
-        | .error e => (s, .raised e)
-        | .ok j2 => writeR { s with mem := s.mem ++ [j2], next := nx }
+      if v.addFix then writeOr s { s with mem := s.mem ++ [j1], next := nx }   -- `except Exception: self._jobs.pop()`
       else writeR { s with mem := s.mem ++ [j1], next := nx }
 
 /-- `job.status` on job `i`: a sent, not completed job asks the server; `.killed` = script over -/
@@ -327,6 +357,7 @@ def query (s : State) (i : Nat) : State × Res :=
       | .st x :: rest => ({ s with sts := rest, mem := upd (setSt x) s.mem i }, .ok)
       | .fault e :: rest => ({ s with sts := rest }, .raised e)
       | .ignored :: rest => ({ s with sts := rest }, .ok)
+      | .intr :: rest => ({ s with sts := rest }, .raised .keyboardInterrupt)
     else (s, .ok)
 
 /-- one iteration of `_update_job_statuses` -/
@@ -342,6 +373,7 @@ def refreshOne (v : Variant) (s : State) (i : Nat) : State × Res :=
         if x = j.st then (s1, .ok) else writeR s1
       | .fault e :: rest => ({ s with sts := rest }, .raised e)   -- the error leaves `_update_job_statuses`
       | .ignored :: rest => ({ s with sts := rest }, .ok)
+      | .intr :: rest => ({ s with sts := rest }, .raised .keyboardInterrupt)
     else (s, .ok)
 
 def refreshIdx (v : Variant) : List Nat → State → State × Res
@@ -369,6 +401,7 @@ def pollSts : Status → List Ans → Poll
       | .st x => pollSts x r
       | .ignored => pollSts cur r
       | .fault e => .raised cur e r
+      | .intr => .raised cur .keyboardInterrupt r    -- in the status request or in the `time.sleep(1)` after it
 
 /-- after a job was sent: write; sequential mode: poll job `p` until completed, write again.
 A status request that raises inside the wait ends the launch; `pollFix`: the last status seen is written
@@ -383,7 +416,13 @@ def afterSend (v : Variant) (seq : Bool) (s : State) (p : Nat) : State × Res :=
       | some j =>
         match pollSts j.st s1.sts with
         | .cut => kill v s1
-        | .done x rest => writeR { s1 with sts := rest, mem := upd (setSt x) s1.mem p }
+        | .done x rest =>
+          match writeR { s1 with sts := rest, mem := upd (setSt x) s1.mem p } with
+          | (s2, .ok) =>
+            (match s2.sts with      -- `time.sleep(delay)` before the next launch may be interrupted
+             | .intr :: rest' => ({ s2 with sts := rest' }, .raised .keyboardInterrupt)
+             | _ => (s2, .ok))
+          | r => r
         | .raised x e rest =>
           let s2 : State := { s1 with sts := rest, mem := upd (setSt x) s1.mem p }
           if v.pollFix then
@@ -460,6 +499,113 @@ def launchOp (v : Variant) (rerun replace seq : Bool) (s : State) : State × Res
   | (s1, .ok) => launchIdx v rerun replace seq (List.range s1.mem.length) s1
   | r => r
 
+/-! ## `get_results`, `track_progress`, deletion -/
+
+/-- `JobStatus.maybe_completed` -/
+def Status.maybeCompleted : Status → Bool
+  | .success | .error | .canceled | .unknown => true
+  | _ => false
+
+def stAt (s : State) (i : Nat) : Option Status := (s.mem[i]?).map (·.st)
+
+/-- leaving `job.get_results()` of job `i`, whose status was `old` when it was entered, with result `r`.
+`gstFix`: a `finally` clause writes the group when the status changed meanwhile (`job.get_results()` evaluates
+`self.status`, and UNKNOWN is not a final status); pinned: nothing is written. -/
+def finishGet (v : Variant) (old : Status) (s : State) (i : Nat) (r : Res) : State × Res :=
+  if v.gstFix && decide (stAt s i ≠ some old) then
+    match write s with
+    | .ok s' => (s', r)
+    | .error e => (s, .raised e)
+  else (s, r)
+
+/-- `_get_results` stores the results; pinned code: results carrying a `result_mapping` make it replace
+`self._delta_parameters` by the mapping delta parameters (a dictionary without the keys `command`/`mapping`) -/
+def setRes (v : Variant) (mapped : Bool) (j : Job) : Job :=
+  { j with res := true, dp := if mapped && !v.resFix then false else j.dp }
+
+/-- the `get_job_results` request for job `i`; the `Bool` = results were obtained -/
+def fetch (v : Variant) (old : Status) (s : State) (i : Nat) : State × Res × Bool :=
+  match s.rsps with
+  | [] => let r := kill v s; (r.1, r.2, false)
+  | .fault e :: rest => let r := finishGet v old { s with rsps := rest } i (.raised e); (r.1, r.2, false)
+  | .unavailable :: rest => let r := finishGet v old { s with rsps := rest } i .ok; (r.1, r.2, false)
+  | .ok mapped :: rest =>
+    let r := finishGet v old { s with rsps := rest, mem := upd (setRes v mapped) s.mem i } i .ok
+    (r.1, r.2, true)
+
+/-- one iteration of `JobGroup.get_results`: `job.get_results()` when `maybe_completed`, else `None` -/
+def getOne (v : Variant) (s : State) (i : Nat) : State × Res × Bool :=
+  match s.mem[i]? with
+  | none => (s, .ok, false)
+  | some j =>
+    if !j.st.maybeCompleted then (s, .ok, false)
+    else
+      match query s i with                       -- `job_status = self.status`
+      | (_, .killed) => let r := kill v s; (r.1, r.2, false)
+      | (s1, .raised e) => let r := finishGet v j.st s1 i (.raised e); (r.1, r.2, false)
+      | (s1, .ok) =>
+        match s1.mem[i]? with
+        | none => let r := finishGet v j.st s1 i .ok; (r.1, r.2, false)     -- (not reachable)
+        | some j1 =>
+          if !j1.st.maybeCompleted then           -- `RuntimeError('The job is still running…')` → `None`
+            let r := finishGet v j.st s1 i .ok; (r.1, r.2, false)
+          else if j1.res then
+            match query s1 i with                -- `if self._results and self.status.completed`
+            | (_, .killed) => let r := kill v s1; (r.1, r.2, false)
+            | (s2, .raised e) => let r := finishGet v j.st s2 i (.raised e); (r.1, r.2, false)
+            | (s2, .ok) =>
+              if ((s2.mem[i]?).map (·.st.completed)).getD false then
+                let r := finishGet v j.st s2 i .ok; (r.1, r.2, true)
+              else fetch v j.st s2 i
+          else fetch v j.st s1 i
+
+def getIdx (v : Variant) : List Nat → State → List Nat → State × Res × List Nat
+  | [], s, acc => (s, .ok, acc)
+  | i :: is, s, acc =>
+    match getOne v s i with
+    | (s', .ok, b) => getIdx v is s' (acc ++ [if b then 1 else 0])
+    | (s', r, _) => (s', r, [])
+
+/-- `JobGroup.get_results()`; the view lists per job 1 = results, 0 = `None` -/
+def getResultsOp (v : Variant) (s : State) : State × Res × List Nat :=
+  match refreshAll v s with
+  | (s1, .ok) => getIdx v (List.range s1.mem.length) s1 []
+  | (s1, r) => (s1, r, [])
+
+/-- `track_progress` counts `status.waiting or status.running` over ALL jobs, sent or not -/
+def activeCount (l : List Job) : Nat := (l.filter (fun j => j.st.isWaiting || j.st.isRunning)).length
+
+/-- the `while True` of `track_progress`: refresh, stop when nothing is waiting/running, else sleep and go on.
+Every round that does not end the loop and is not the last asks the server at least once, or can never change
+anything again (only unsent WAITING jobs left: the loop never ends by itself and the process has to be
+stopped) — `fuel` = number of answers left + 1 rounds therefore covers every run; out of fuel = stopped. -/
+def trackLoop (v : Variant) : Nat → State → State × Res
+  | 0, s => kill v s
+  | fuel + 1, s =>
+    match refreshAll v s with
+    | (s1, .ok) =>
+      if activeCount s1.mem = 0 then (s1, .ok)
+      else match s1.sts with
+        | .intr :: rest => ({ s1 with sts := rest }, .raised .keyboardInterrupt)  -- in `time.sleep(STATUS_REFRESH_DELAY)`
+        | _ => trackLoop v fuel s1
+    | r => r
+
+/-- `JobGroup.track_progress()` (`len(self.list_active_jobs())` refreshes once before the loop) -/
+def trackOp (v : Variant) (s : State) : State × Res :=
+  match refreshAll v s with
+  | (s1, .ok) => trackLoop v (s1.sts.length + 1) s1
+  | r => r
+
+/-- `JobGroup.delete_job_group(name)` (or `delete_all_job_groups()`) at time `now`; the process drops its object of
+the deleted group and opens the name again.  Identifiers of the deleted group count as retired. -/
+def wipeOp (v : Variant) (s : State) (now : Nat) : State × Res :=
+  construct v { s with disk := none, mem := [], clock := now, retired := s.issued ++ s.retired }
+
+/-- `JobGroup.delete_job_groups_date(cutoff)` at time `now`, then `JobGroup(name)` again: the group goes when its
+`created_date` is strictly before the cut-off -/
+def deleteDateOp (v : Variant) (s : State) (cutoff now : Nat) : State × Res :=
+  if s.created < cutoff then wipeOp v s now else construct v { s with clock := now }
+
 /-! ## Views -/
 
 /-- `progress()`'s cascade: (successful, unsuccessful, sent, not sent) -/
@@ -498,6 +644,12 @@ inductive Op where
   | launch (rerun replace seq : Bool) (outs : List Outcome) (sts : List Ans)
   | progress (sts : List Ans)
   | list (k : ListKind) (sts : List Ans)
+  | getResults (sts : List Ans) (rsps : List Rsp)
+  | track (sts : List Ans)
+  | wipe (now : Nat)                    -- delete this group (by name or with all groups), open the name again
+  | deleteDate (cutoff now : Nat)       -- date-based deletion, open the name again
+  | other     -- a namespace operation that concerns other names only: `list_existing`, opening / saving / deleting
+              --   groups with another name (also through `delete_job_groups_date` when this group is recent enough)
   deriving Repr
 
 structure Out where
@@ -505,7 +657,7 @@ structure Out where
   view : List Nat
   deriving DecidableEq, Repr
 
-def clearScript (s : State) : State := { s with outs := [], sts := [] }
+def clearScript (s : State) : State := { s with outs := [], sts := [], rsps := [] }
 
 def step (v : Variant) (s : State) (op : Op) : State × Out :=
   match op with
@@ -521,12 +673,19 @@ def step (v : Variant) (s : State) (op : Op) : State × Out :=
   | .list k sts =>
     let r := if k = .unsent then (clearScript s, Res.ok) else refreshAll v { s with outs := [], sts := sts }
     (clearScript r.1, ⟨r.2, match r.2 with | .ok => indicesWhere (inKind k) r.1.mem 0 | _ => []⟩)
+  | .getResults sts rsps =>
+    let r := getResultsOp v { s with outs := [], sts := sts, rsps := rsps }
+    (clearScript r.1, ⟨r.2.1, match r.2.1 with | .ok => r.2.2 | _ => []⟩)
+  | .track sts => let r := trackOp v { s with outs := [], sts := sts, rsps := [] }; (clearScript r.1, ⟨r.2, []⟩)
+  | .wipe now => let r := wipeOp v (clearScript s) now; (clearScript r.1, ⟨r.2, []⟩)
+  | .deleteDate c now => let r := deleteDateOp v (clearScript s) c now; (clearScript r.1, ⟨r.2, []⟩)
+  | .other => (clearScript s, ⟨.ok, []⟩)
 
 /-- before the first `JobGroup(name)`: nothing in memory, no file; `dir` = whether the
 `job_group` directory already exists in the data directory -/
 def init (dir : Bool) : State :=
-  { mem := [], disk := none, dir := dir, next := 0, outs := [], sts := [], sent := [], issued := [],
-    retired := [] }
+  { mem := [], disk := none, dir := dir, next := 0, outs := [], sts := [], rsps := [], created := 0, clock := 0,
+    sent := [], issued := [], retired := [] }
 
 /-- the state right after the first `JobGroup(name)` -/
 def create (v : Variant) (dir : Bool) : State := (construct v (init dir)).1
@@ -595,5 +754,119 @@ def step (k : Paths) (s : Store) : Op → Store × Obs
     else (writeFile k s n 0, .content (some 0))
 
 end FS
+
+/-! ## The group files of one directory: listing and deletion
+
+`JobGroup.list_existing()`, `delete_job_group(name)`, `delete_all_job_groups()` and
+`delete_job_groups_date(date)` work on the directory as a whole.  Beyond `FS` above the model needs a directory that
+can be *listed* (a finite association list path ↦ content), the `created_date` each group file carries, and the third
+site that relates names and directory entries: `list_existing` recovers a name from an entry
+(`f.endswith('jgrp')`, `os.path.splitext(f)[0]`).  `delete_all_job_groups` deletes what `list_existing` returns;
+`delete_job_groups_date` *opens* every listed name with `JobGroup(name)` — which creates a group file when that name
+has none — compares `created_date < date`, then deletes. -/
+namespace NS
+
+/-- a group file: `created_date` in seconds, the rest of its content as a token (0 = no jobs) -/
+structure Content where
+  created : Nat
+  data : Nat
+  deriving DecidableEq, Repr
+
+structure Paths where
+  full : Nat → Nat             -- `get_full_path`: `write_file`, `read_file`, `delete_file`
+  look : Nat → Nat             -- `has_file`'s own join
+  unname : Nat → Option Nat    -- `list_existing`: directory entry ↦ group name (`none` = not a group file)
+
+/-- names and entries related by the identity -/
+def real : Paths := ⟨id, id, some⟩
+
+/-- the three sites agree: same path for a name everywhere, distinct names distinct paths, and listing gives back
+the name a file was saved under -/
+def Coherent (k : Paths) : Prop :=
+  (∀ n, k.look n = k.full n) ∧ (∀ a b, k.full a = k.full b → a = b) ∧ (∀ n, k.unname (k.full n) = some n)
+
+/-- `list_existing` as pinned: a name that is empty or consists of dots only (the odd tokens here) has an entry
+(`.jgrp`, `..jgrp`, …) that `os.path.splitext` does not split — it is listed as its entry's whole file name, which
+is another name (token + 1) -/
+def dotted : Paths := ⟨id, id, fun p => if p % 2 = 1 then some (p + 1) else some p⟩
+
+abbrev Dir := List (Nat × Content)
+
+def lookup : Dir → Nat → Option Content
+  | [], _ => none
+  | (q, c) :: d, p => if q = p then some c else lookup d p
+
+/-- create or overwrite -/
+def put : Dir → Nat → Content → Dir
+  | [], p, c => [(p, c)]
+  | (q, c') :: d, p, c => if q = p then (q, c) :: d else (q, c') :: put d p c
+
+def remove : Dir → Nat → Dir
+  | [], _ => []
+  | (q, c) :: d, p => if q = p then remove d p else (q, c) :: remove d p
+
+def hasFile (k : Paths) (d : Dir) (n : Nat) : Bool := (lookup d (k.look n)).isSome
+def readFile (k : Paths) (d : Dir) (n : Nat) : Option Content := lookup d (k.full n)
+def writeFile (k : Paths) (d : Dir) (n : Nat) (c : Content) : Dir := put d (k.full n) c
+def deleteFile (k : Paths) (d : Dir) (n : Nat) : Dir := remove d (k.full n)
+def listExisting (k : Paths) (d : Dir) : List Nat := d.filterMap (fun e => k.unname e.1)
+
+/-- `JobGroup(name)` at time `now` → the directory afterwards and what the object holds
+(`none` = `FileNotFoundError`: found by `has_file`, not by `read_file`) -/
+def openGroup (k : Paths) (d : Dir) (n now : Nat) : Dir × Option Content :=
+  if hasFile k d n then (d, readFile k d n)
+  else (writeFile k d n ⟨now, 0⟩, some ⟨now, 0⟩)
+
+/-- `JobGroup(name)` then a mutation that saves: the object writes its own `created_date` back -/
+def saveGroup (k : Paths) (d : Dir) (n data now : Nat) : Dir × Option Content :=
+  match openGroup k d n now with
+  | (d1, some c) => (writeFile k d1 n ⟨c.created, data⟩, some ⟨c.created, data⟩)
+  | r => r
+
+/-- `delete_all_job_groups` -/
+def deleteAll (k : Paths) (d : Dir) : Dir := (listExisting k d).foldl (deleteFile k) d
+
+/-- first loop of `delete_job_groups_date`: open every listed name, keep those created before the cut-off -/
+def scanDates (k : Paths) (cutoff now : Nat) : List Nat → Dir → List Nat → Dir × Option (List Nat)
+  | [], d, acc => (d, some acc)
+  | n :: ns, d, acc =>
+    match openGroup k d n now with
+    | (d1, some c) => scanDates k cutoff now ns d1 (if c.created < cutoff then acc ++ [n] else acc)
+    | (d1, none) => (d1, none)
+
+/-- `delete_job_groups_date`; the `Bool`: returned normally -/
+def deleteDate (k : Paths) (d : Dir) (cutoff now : Nat) : Dir × Bool :=
+  match scanDates k cutoff now (listExisting k d) d [] with
+  | (d1, some dels) => (dels.foldl (deleteFile k) d1, true)
+  | (d1, none) => (d1, false)
+
+inductive Op where
+  | open (n now : Nat)
+  | save (n data now : Nat)
+  | has (n : Nat)
+  | list
+  | delete (n : Nat)
+  | deleteAll
+  | deleteDate (cutoff now : Nat)
+  deriving DecidableEq, Repr
+
+inductive Obs where
+  | content (c : Option Content)
+  | found (b : Bool)
+  | names (l : List Nat)
+  | done
+  | raised
+  deriving DecidableEq, Repr
+
+def step (k : Paths) (d : Dir) : Op → Dir × Obs
+  | .open n now => let r := openGroup k d n now; (r.1, .content r.2)
+  | .save n data now => let r := saveGroup k d n data now; (r.1, .content r.2)
+  | .has n => (d, .found (hasFile k d n))
+  | .list => (d, .names (listExisting k d))
+  | .delete n => (deleteFile k d n, .done)
+  | .deleteAll => (deleteAll k d, .done)
+  | .deleteDate c now => let r := deleteDate k d c now; (r.1, if r.2 then .done else .raised)
+
+end NS
 
 end PM.C19
